@@ -23,6 +23,7 @@ Step(line, f) == IF f \in DOMAIN line THEN line[f] ELSE "missing"
 Fwd(line) ==
    LET d == line.d  d3 == line.d3 IN
    Ds("v3_describes_another_api", "fwd", ApiDiff(Api2(d), Api3(d3)))
+   \cup Ds("v3_states_another_serialisation", "fwd", SerDiffs(Api2(d), Api3(d3)))
    \cup (IF ServersFwdOK(d, d3) THEN {}
          ELSE {V("v3_servers", "fwd", <<"servers">>, Srv2(d, TRUE), A(SetToSeq({S(u) : u \in Servers3(d3)})))})
 
@@ -32,21 +33,44 @@ Back(line) ==
        names == CompNames2(d) \cup CompNames2(b) \cup CompNames3(d3)
        badRefs == {r \in AllRefs(b) : ~V2RefOK(r, names)}
    IN Ds("v2_again_describes_another_api", "back", ApiDiff(Api2(d), Api2(b)))
+      \cup Ds("v2_again_states_another_serialisation", "back", SerDiffs(Api2(d), Api2(b)))
       \cup Ds("v2_again_servers", "back", Diff(Srv2(d, withSchemes), Srv2(b, withSchemes), <<"servers">>))
       \cup {V("v2_again_reference_not_v2", "back", <<"$ref">>, Absent, S(r)) : r \in badRefs}
 
 (* A conversion does not edit the document it is given: the input marshalled again after *)
 (* the call (rd2 for ToV3, d3b for FromV3) is the document marshalled before it.         *)
+(* (rd3: the OpenAPI 2 document again after FromV3 - the OpenAPI 3 document shares parts of it.  A document whose JSON  *)
+(* text after the call is the text before it is logged as "<key>Same" only.)                                            *)
 InputKept(line) ==
    (IF "rd2" \in DOMAIN line /\ "rd" \in DOMAIN line
     THEN Ds("to_v3_changed_its_input", "input2", Diff(line.rd, line.rd2, <<>>)) ELSE {})
    \cup
    (IF "d3b" \in DOMAIN line /\ "d3" \in DOMAIN line
     THEN Ds("from_v3_changed_its_input", "input3", Diff(line.d3, line.d3b, <<>>)) ELSE {})
+   \cup
+   (IF "rd3" \in DOMAIN line /\ "rd" \in DOMAIN line
+    THEN Ds("from_v3_changed_the_v2_document", "input2", Diff(line.rd, line.rd3, <<>>)) ELSE {})
+   \cup
+   {V("input_not_marshalled_after_the_call", "", <<k>>, Absent, Absent) : k \in {"rd2Err", "d3bErr", "rd3Err"} \cap DOMAIN line}
 
-Violations(line) ==
+(* The document converted back is an OpenAPI 2 document that describes the same API, so the first sentence of the     *)
+(* statement holds of it as well: converted to OpenAPI 3 once more (d3a) it passes validation and describes that API.  *)
+(* Judged on the lines whose first round trip is clean (a loss on the way is reported once, where it happens).          *)
+Again(line) ==
+   IF "again" \notin DOMAIN line THEN {}
+   ELSE IF line.again # "ok" THEN Plain("to_v3_again_" \o line.again)
+   ELSE LET d == line.d
+            d3a == IF line.d3aSame THEN line.d3 ELSE line.d3a
+        IN (IF line.vala # "ok" THEN Plain("v3_again_invalid_" \o line.vala) ELSE {})
+           \cup (IF line.d3aSame THEN {}
+                 ELSE Ds("v3_again_describes_another_api", "again", ApiDiff(Api2(d), Api3(d3a)))
+                      \cup Ds("v3_again_states_another_serialisation", "again", SerDiffs(Api2(d), Api3(d3a)))
+                      \cup (IF ServersFwdOK(d, d3a) THEN {}
+                            ELSE {V("v3_again_servers", "again", <<"servers">>, Srv2(d, TRUE), A(SetToSeq({S(u) : u \in Servers3(d3a)})))}))
+
+FirstTrip(line) ==
    IF Step(line, "un") # "ok" THEN Plain("v2_document_not_read_" \o Step(line, "un"))
-   ELSE Ds("realised_differs", "realise", ApiDiff(Api2(line.d), Api2(line.rd)))
+   ELSE Ds("realised_differs", "realise", ApiDiff(Api2(line.d), Api2(line.rd)) \cup SerDiffs(Api2(line.d), Api2(line.rd)))
         \cup InputKept(line)
         \cup (IF Step(line, "to3") # "ok" THEN Plain("to_v3_" \o Step(line, "to3"))
               ELSE (IF line.val # "ok" THEN Plain("v3_invalid_" \o line.val) ELSE {})
@@ -54,6 +78,8 @@ Violations(line) ==
                    \cup Fwd(line)
                    \cup (IF Step(line, "from3") # "ok" THEN Plain("from_v3_" \o Step(line, "from3"))
                          ELSE Back(line)))
+
+Violations(line) == LET first == FirstTrip(line) IN IF first = {} THEN Again(line) ELSE first
 
 Report(line, v) ==
    [case |-> line.case, ids |-> IF "ids" \in DOMAIN line THEN line.ids ELSE <<>>, d |-> line.d,
